@@ -6,6 +6,9 @@ T='property-based testing (proptest generators, shrinking, replay files)'
 CLAIMED={
  "C02":("exploration","generated schemas, histories, storage layouts and WHERE/FOR/SINCE queries; every answer is compared with a three-valued reference evaluator in both directions and with the same query on the same data in every other layout","reference evaluator demands only what the documentation forces (EITHER for null cells, string ordering, unknown fields); observations at quiescent states; open known findings are excluded by construction and counted",T+" against a reference model + layout-metamorphic oracle"),
  "C07":("exploration","generated schemas over every field type, edge-heavy values and histories; QUERY / REPLAY / QUERY RETURN[...] are compared cell by cell (by column name) with the stored values at every storage tier, core fields with their first observation","numbers compared numerically, strings byte-identical; response frames decoded by an exactly-rounding JSON reader of the harness; open known findings excluded by construction",T+" with a round-trip oracle across storage tiers"),
+ "C01":("fault_enumeration","generated histories of STORE / sync / FLUSH / compaction / clean restart with SIGKILL and armed crash points at named step boundaries (WAL append / rotation, memtable rotation, flush file writes, index save, publication, WAL pruning, compaction output, hand-over, reclaim); a new process on the same directories must return every acknowledged+visible+WAL-drained event exactly once with its payload, COUNT must equal the selection, never-acknowledged events at most once","process crash (SIGKILL), not power loss; crash points are the hook step boundaries; with a buffered WAL the crash clause is the per-shard prefix rule; open known findings (WAL pruning keyed on segment ids, death during flush / compaction) are excluded by construction",T+" with crash-point injection and a durable-set reference model"),
+ "C05":("exploration","generated multi-type histories (types in different subsets of segments), fan-in 2-4, repeated compaction rounds through the production CompactionWorker; before/after every round QUERY, COUNT, COUNT BY context_id and typed REPLAY are compared with the model per type and context; retired inputs must leave the live list and the disk","rounds are single passes triggered by the compact_shard hook (production planner, worker, hand-over); crash clause explored by the C01/C11 histories",T+" with a reference model over compaction rounds"),
+ "C11":("fault_enumeration","the C01 history generator with a monitor that snapshots, after every command and after every restart, the decoded segments.idx (own decoder), the live segment list and (len, sha256) of every file of every segment directory; invariants: index always decodes, every named segment exists and is complete, visible segments never change, retired ids are not reused","observation instants are the gaps between driver commands and the first instant after each restart; open known findings excluded by construction",T+" with a file-hash invariant monitor over crash histories"),
 }
 REASONS={}
 hooks_commits=subprocess.run("git -C /repo log --format=%h --grep='^verif:'",shell=True,capture_output=True,text=True).stdout.split()
